@@ -956,14 +956,34 @@ func strs(ns []string) px.Value {
 }
 
 // initHash renders the definition as the init-hash of `Object[…]` (attribute types as Type values)
-func (d *def) initHash(name string, parent px.Type) *types.Hash {
+func (d *def) initHash(name string, parent px.Type) *types.Hash { return d.initHash2(name, parent, "") }
+
+// initHash2: with parentName != "" the ALTERNATIVE spelling of the same init-hash: the parent as a type NAME, attribute types
+// as type-expression strings (in the long form only where the string is a plain type name, as the attribute schema demands),
+// type parameters in the long form {type => T}
+func (d *def) initHash2(name string, parent px.Type, parentName string) *types.Hash {
+	alt := parentName != ""
+	tyv := func(t *ty, plainOnly bool) px.Value {
+		if alt && (!plainOnly || t.elt == nil) {
+			return types.WrapString(t.text())
+		}
+		return t.px()
+	}
 	es := []*types.HashEntry{types.WrapHashEntry2("name", types.WrapString(name))}
 	if parent != nil {
-		es = append(es, types.WrapHashEntry2("parent", parent))
+		if alt {
+			es = append(es, types.WrapHashEntry2("parent", types.WrapString(parentName)))
+		} else {
+			es = append(es, types.WrapHashEntry2("parent", parent))
+		}
 	}
 	if len(d.params) > 0 {
 		var ps []*types.HashEntry
 		for _, q := range d.params {
+			if alt {
+				ps = append(ps, types.WrapHashEntry2(q.name, types.WrapHash([]*types.HashEntry{types.WrapHashEntry2("type", q.ty.px())})))
+				continue
+			}
 			ps = append(ps, types.WrapHashEntry2(q.name, q.ty.px()))
 		}
 		es = append(es, types.WrapHashEntry2("type_parameters", types.WrapHash(ps)))
@@ -972,10 +992,10 @@ func (d *def) initHash(name string, parent px.Type) *types.Hash {
 		var as []*types.HashEntry
 		for _, a := range d.attrs {
 			if a.kind == "n" && a.dflt == nil && !a.override && a.final == "" {
-				as = append(as, types.WrapHashEntry2(a.name, a.ty.px()))
+				as = append(as, types.WrapHashEntry2(a.name, tyv(a.ty, false)))
 				continue
 			}
-			fs := []*types.HashEntry{types.WrapHashEntry2("type", a.ty.px())}
+			fs := []*types.HashEntry{types.WrapHashEntry2("type", tyv(a.ty, true))}
 			if a.override {
 				fs = append(fs, types.WrapHashEntry2("override", types.WrapBoolean(true)))
 			}
@@ -1083,6 +1103,7 @@ type run struct {
 	faults  []string
 	defOK   bool
 	defRes  []string
+	alt     bool // the init-hash rendering spells types and the parent as strings (initHash2)
 }
 
 // define adds the definitions to the context, either as parsed text or as init-hashes
@@ -1102,10 +1123,16 @@ func (r *run) define(c px.Context, s *spec, prefix string, asText bool) {
 				px.AddTypes(c, t)
 			} else {
 				var parent px.Type
+				parentName := ""
 				if d.parent >= 0 {
 					parent = r.types[d.parent]
+					if r.alt {
+						parentName = fmt.Sprintf("%s::T%d", prefix, d.parent)
+					}
+				} else if r.alt {
+					parentName = "-"
 				}
-				t = types.MakeObjectType(name, nil, d.initHash(name, parent), false)
+				t = types.MakeObjectType(name, nil, d.initHash2(name, parent, parentName), false)
 				px.AddTypes(c, t)
 			}
 		})
@@ -1832,7 +1859,7 @@ func exec(c px.Context, op string, args []sx.Sexp) core.Result {
 	var fails []failure
 	// the two renderings, each in its own forked context (fresh loader)
 	px.DoWithContext(c.Fork(), func(fc px.Context) {
-		rh = &run{}
+		rh = &run{alt: (len(acts)+len(defs))%2 == 1}
 		rh.define(fc, s, fmt.Sprintf("C17h%d", n), false)
 		if rh.defOK {
 			rh.act(fc, s, acts)
